@@ -400,6 +400,28 @@ func (st *ConcState) eval(v ssa.Value, d int) (int64, bool) {
 				return l & r, true
 			case token.OR:
 				return l | r, true
+			case token.XOR:
+				return truncInt(l^r, x.Type()), true
+			case token.AND_NOT:
+				return l &^ r, true
+			case token.MUL:
+				return truncInt(l*r, x.Type()), true
+			case token.QUO:
+				if r != 0 {
+					return truncInt(l/r, x.Type()), true
+				}
+			case token.REM:
+				if r != 0 {
+					return truncInt(l%r, x.Type()), true
+				}
+			case token.SHL:
+				if r >= 0 && r < 63 {
+					return truncInt(l<<uint(r), x.Type()), true
+				}
+			case token.SHR:
+				if r >= 0 && r < 63 && l >= 0 {
+					return l >> uint(r), true
+				}
 			}
 		}
 	}
@@ -423,6 +445,8 @@ type ConcCfg struct {
 	// InlineAny: static callees with source in the analysed packages (exported ones included) that are explored
 	// inline although they are not helpers in the sense of Eligible.
 	InlineAny func(h *ssa.Function) bool
+	// DeferRun names a deferred call that is not explored inline (mu.Unlock(), close(ch)) at the moment it runs.
+	DeferRun func(d *ssa.Defer, st *ConcState) string
 	// SliceLen fixes the length of a slice parameter of the explored function: slices of it with evident bounds are
 	// then tracked as intervals (ConcState.SliceOf), len() of them is evident.
 	SliceLen func(p *ssa.Parameter) (int64, bool)
@@ -804,6 +828,15 @@ func ConcPaths(fn *ssa.Function, cfg ConcCfg) (seqs []string, truncated bool) {
 						d := len(stack)
 						st.defers[d] = append(append([]*ssa.Defer{}, st.defers[d]...), x)
 					}
+				} else if sc := x.Call.StaticCallee(); cfg.DeferRun != nil && !(sc != nil && len(sc.Blocks) > 0 && curProgRoot(sc) && sc.Parent() == nil) {
+					// a deferred call that is not explored (mu.Unlock, close(ch)): remembered so that the rule can
+					// name it when it actually runs
+					st = st.clone()
+					if st.defers == nil {
+						st.defers = map[int][]*ssa.Defer{}
+					}
+					d := len(stack)
+					st.defers[d] = append(append([]*ssa.Defer{}, st.defers[d]...), x)
 				}
 			case *ssa.RunDefers:
 				d := len(stack)
@@ -812,6 +845,19 @@ func ConcPaths(fn *ssa.Function, cfg ConcCfg) (seqs []string, truncated bool) {
 					ns := st.clone()
 					ns.defers[d] = l[:len(l)-1]
 					var f *ssa.Function
+					if _, isMk := df.Call.Value.(*ssa.MakeClosure); !isMk {
+						if sc := df.Call.StaticCallee(); !(sc != nil && len(sc.Blocks) > 0 && curProgRoot(sc) && sc.Parent() == nil) {
+							// not explored: the rule names it, then the remaining deferred calls run
+							nev := ev
+							if cfg.DeferRun != nil {
+								if e := cfg.DeferRun(df, st); e != "" {
+									nev = append(append([]string{}, ev...), e)
+								}
+							}
+							run(blk, k, nev, stack, ns)
+							return
+						}
+					}
 					if mk, ok := df.Call.Value.(*ssa.MakeClosure); ok {
 						f = mk.Fn.(*ssa.Function)
 						for bi, b := range mk.Bindings {
